@@ -3,6 +3,7 @@ package main
 import (
 	"encoding/json"
 	"fmt"
+	"sort"
 	"strconv"
 	"strings"
 	"sync"
@@ -114,21 +115,44 @@ func runFree(c *Case, e *evalCtx) *freeResult {
 			}
 		}(items)
 	}
-	wg.Add(1)
+	// SendDirect callers: the batches are dealt round-robin to `DirectCallers` goroutines, so several
+	// SendDirect calls (and the background flush) compress at the same time on this sender — and, the
+	// worker process running other cases next to this one, on different senders too
 	var directPanic string
-	go func() {
-		defer wg.Done()
-		for _, b := range f.Direct {
-			var ps []*pack.LogSinkPack
-			for _, r := range b {
-				ps = append(ps, e.recs[r.ID].P)
-			}
-			if o := vh.Guard(func() { snd.SendDirect(ps) }); !o.OK() {
-				directPanic = o.Panic
-			}
-			time.Sleep(200 * time.Microsecond)
+	var dpMu sync.Mutex
+	callers := f.DirectCallers
+	if callers < 1 {
+		callers = 1
+	}
+	batchOf := map[int]int{} // record id -> index of its SendDirect batch
+	for bi, b := range f.Direct {
+		for _, r := range b {
+			batchOf[r.ID] = bi
 		}
-	}()
+	}
+	for cI := 0; cI < callers; cI++ {
+		wg.Add(1)
+		go func(cI int) {
+			defer wg.Done()
+			for bi, b := range f.Direct {
+				if bi%callers != cI {
+					continue
+				}
+				var ps []*pack.LogSinkPack
+				for _, r := range b {
+					ps = append(ps, e.recs[r.ID].P)
+				}
+				if o := vh.Guard(func() { snd.SendDirect(ps) }); !o.OK() {
+					dpMu.Lock()
+					directPanic = o.Panic
+					dpMu.Unlock()
+				}
+				if callers == 1 {
+					time.Sleep(200 * time.Microsecond)
+				}
+			}
+		}(cI)
+	}
 	wg.Wait()
 	if directPanic != "" {
 		e.prop("SendDirect:panic", "SendDirect panicked: %s", vh.Clip(directPanic, 200))
@@ -200,6 +224,12 @@ func runFree(c *Case, e *evalCtx) *freeResult {
 	var sharedIDs, directIDs []int
 	var sharedLines, directLines []string
 	var sharedPacks [][]int
+	type dpack struct {
+		batch int
+		ids   []int
+		line  string
+	}
+	var dpacks []dpack
 	for k, h := range got {
 		// classify by content: every pack holds at least one record
 		d0 := decodePack(h.Snap, h.Count, h.Status)
@@ -215,9 +245,21 @@ func runFree(c *Case, e *evalCtx) *freeResult {
 			sharedLines = append(sharedLines, e.packLine(src, d, ids))
 			sharedPacks = append(sharedPacks, ids)
 		} else {
-			directIDs = append(directIDs, ids...)
-			directLines = append(directLines, e.packLine(src, d, ids))
+			bi := len(f.Direct)
+			if len(ids) > 0 {
+				bi = batchOf[ids[0]]
+			} else if d0.Err == "" && len(d0.Recs) > 0 {
+				bi = batchOf[int(d0.Recs[0].Oid)/31]
+			}
+			dpacks = append(dpacks, dpack{bi, ids, e.packLine(src, d, ids)})
 		}
+	}
+	// the calls of different callers interleave: group the direct packs by call (stable: the packs of
+	// one call keep their order)
+	sort.SliceStable(dpacks, func(a, b int) bool { return dpacks[a].batch < dpacks[b].batch })
+	for _, dp := range dpacks {
+		directIDs = append(directIDs, dp.ids...)
+		directLines = append(directLines, dp.line)
 	}
 	res.packs = append(sharedLines, directLines...)
 	if !e.hasKeySuffix(":undecodable") && !e.hasKeySuffix(":foreign-record") {
